@@ -12,7 +12,7 @@
    Model/Buckets.v), the replay of each bucket as observations of its upper
    bound (in seconds for durations) and Prometheus's own bucketing. *)
 From Coq Require Import ZArith List Bool Lia Arith.
-From Tally Require Import Base.Obs Base.Search Model.Buckets Model.Prom.
+From Tally Require Import Base.ObsCore Base.Search Model.Buckets Model.Prom.
 Import ListNotations.
 Open Scope Z_scope.
 
